@@ -195,3 +195,54 @@ func familiesAcceptSub(c *explore.Ctx, side *gramSide, g *refgrammar.Grammar) {
 	}
 	s.WallS = time.Since(t0).Seconds()
 }
+
+// garbageSub: characters that are no part of any token, glued to a name (the lexical grammar
+// restricts names to ASCII letters, digits and _): the document must be rejected.
+func garbageSub(c *explore.Ctx, side *gramSide, g *refgrammar.Grammar) {
+	n := c.Pick(5, 6)
+	glue := []string{"é", "ß", "１", "\u00a0", "ʼ"}
+	s := c.Sub("names-with-non-ascii", fmt.Sprintf("every sentence of ≤ %d tokens (core alphabet) with a non-ASCII letter, digit, space or apostrophe (%d of them) glued behind each of its names, and the profile documents likewise", n, len(glue)),
+		"the parser rejects the document (no token of the grammar holds such a character outside strings and comments)", "every rendering")
+	if s == nil {
+		return
+	}
+	t0 := time.Now()
+	idx := 0
+	try := func(toks []string) {
+		for i, t := range toks {
+			if t == "" || !((t[0] >= 'a' && t[0] <= 'z') || (t[0] >= 'A' && t[0] <= 'Z') || t[0] == '_') {
+				continue
+			}
+			for _, gl := range glue {
+				idx++
+				if idx%c.NShards != c.Shard {
+					continue
+				}
+				cp := append([]string{}, toks...)
+				cp[i] = t + gl
+				s.States++
+				s.Transitions++
+				gramCase(c, s, side, g, gramInput{Text: strings.Join(cp, " ")}, nil, true)
+			}
+		}
+	}
+	for _, sent := range language(side, g, "core", side.core, n, false) {
+		if c.Expired() {
+			s.Cap("deadline")
+			break
+		}
+		var toks []string
+		for _, x := range sent.Classes {
+			toks = append(toks, side.core[x].Text)
+		}
+		try(toks)
+	}
+	docs := gen.ExecProfiles
+	if side.id != "C05" {
+		docs = gen.SDLProfiles
+	}
+	for _, d := range docs {
+		try(tokenTextsNoComments(d))
+	}
+	s.WallS = time.Since(t0).Seconds()
+}
